@@ -69,7 +69,14 @@ fn main() {
     let st2: Vec<_> = ohmc::props::structured::shapes(2).into_iter().map(|x| x.1).collect();
     let n2 = st2.len() as u64;
     ctx.run_slice(Slice::new(format!("dagger-pairs-structured[{}^2]", n2), n2 * n2, |i, loc| check_dagger_pair::<B>(&st2[(i / n2) as usize], &st2[(i % n2) as usize], loc)));
-    let gp: Vec<_> = ohmc::props::structured::gluing_pairs(8, 7).into_iter().filter(|p| p.1.edges.is_empty() && p.2.edges.is_empty()).collect();
+    // every structured gluing pair with its hyperedges dropped: spider fusion concerns the legs only
+    let mut gp: Vec<_> = ohmc::props::structured::gluing_pairs(8, 7).into_iter().map(|(n, mut f, mut g)| {
+        f.edges.clear();
+        g.edges.clear();
+        (n, f, g)
+    }).collect();
+    gp.sort_by(|a, b| (&a.1, &a.2).cmp(&(&b.1, &b.2)));
+    gp.dedup_by(|a, b| a.1 == b.1 && a.2 == b.2);
     ctx.run_slice(Slice::new(format!("fusion-long-legs[{} cospan pairs, up to {} nodes]", gp.len(), gp.iter().map(|p| p.1.nodes.len() + p.2.nodes.len()).max().unwrap_or(0)), gp.len() as u64, |i, loc| check_fusion::<B>(&gp[i as usize].1, &gp[i as usize].2, loc)).heavy());
     // dagger laws on large diagrams (sizes 33 .. 129)
     let sizes: Vec<usize> = if ctx.quick() { vec![33, 65] } else { vec![33, 64, 65, 129] };
